@@ -491,6 +491,7 @@ type Contract struct {
 	NoSafety  bool
 	Uses      []*Expr // lemma uses at entry
 	AnchoredUses []AnchoredUse // lemma uses applied when a local variable is first bound
+	Plain     []string // results declared never to be interior pointers
 }
 
 type AnchoredUse struct {
@@ -545,7 +546,7 @@ func newSpecs() *Specs {
 
 var clauseKw = map[string]bool{"func": true, "loop": true, "spec": true, "lemma": true, "props": true, "requires": true,
 	"ensures": true, "modifies": true, "invariant": true, "inline": true, "trusted": true, "pure": true, "allocates": true,
-	"nosafety": true, "use": true, "end": true}
+	"nosafety": true, "use": true, "end": true, "plain": true}
 
 // loadSpecFile parses one contract file. pkg is the package key the file belongs to.
 func (sp *Specs) loadSpecFile(path, pkg string, trustedFile bool) error {
@@ -674,6 +675,8 @@ func (sp *Specs) loadSpecFile(path, pkg string, trustedFile bool) error {
 				return fail(err)
 			}
 			cur.Allocates = e
+		case "plain":
+			cur.Plain = append(cur.Plain, strings.Fields(rest)...)
 		case "inline":
 			cur.Inline = true
 		case "trusted":
